@@ -111,6 +111,26 @@ def run(spec, res):
             facets.append('sample')
         else:
             path = os.path.join(d, 'img.' + fmt)
+            if fmt in ('height_pressure', 'humidity', 'vertical_diffusivity',
+                       'one3d') and spec['nt'] != spec['nz'] and \
+                    spec['nt'] >= 2 and spec['nz'] >= 2 and \
+                    spec['seed'] % 2 == 0 and not spec.get('noshape'):
+                # the path held another valid file of the same grid, start
+                # and SIZE a moment ago (steps and layers exchanged: the
+                # same number of records), and both readers have read it
+                try:
+                    import gc
+                    ps = dict(spec, nt=spec['nz'], nz=spec['nt'],
+                              seed=spec['seed'] + 7)
+                    with open(path, 'wb') as fh:
+                        fh.write(refcamx.encode(ps))
+                    for rd in ('Memmap', 'Read'):
+                        read_all(fmt, path, ps, rd, res)
+                    gc.collect()
+                    os.remove(path)
+                    facets.append('path-held-same-size-file')
+                except Exception:
+                    res.note('path-reuse-setup-failed')
             with open(path, 'wb') as fh:
                 fh.write(refcamx.encode(spec))
         if fmt == 'uamiv' and not spec.get('sample') and \
